@@ -390,3 +390,47 @@ func lemmaTypedGettersAgreeOnFound(st *SlimTrie, key string) (bool, bool, bool, 
 //@   ensures result.NodeCnt == st.levels[len(st.levels)-1].total
 //@   ensures result.KeyCnt == ite(st.inner.NodeTypeBM == nil, 0, st.levels[len(st.levels)-1].leaf)
 //@   ensures fresh(result)
+
+// ---------------------------------------------------------------------------
+// builder (C01 C02 C13 C17)
+
+// newToKeep is the property's definition of "retained": the first key, every key when values are absent or
+// de-duplication is off, otherwise every key whose encoded value differs from its predecessor's.
+
+
+//@ func newToKeep
+//@   property C01 C02
+//@   requires n >= 1 && opt != nil && opt.DedupValue != nil && (values == nil || len(values) == n) && n <= 100000000
+//@   loop 1 invariant 1 <= i && i <= n && len(tokeep) == n && fresh(tokeep) && tokeep[0]
+//@   loop 1 invariant forall(k, 1, i, tokeep[k] == (bytes_cmp(values[k-1], values[k]) != 0))
+//@   loop 2 invariant 0 <= i && i <= n && len(tokeep) == n && fresh(tokeep)
+//@   loop 2 invariant forall(k, 0, i, tokeep[k])
+//@   ensures len(result) == n && fresh(result)
+//@   ensures *opt.DedupValue && values != nil ==> result[0] && forall(k, 1, n, result[k] == (bytes_cmp(values[k-1], values[k]) != 0))
+//@   ensures !(*opt.DedupValue && values != nil) ==> forall(k, 0, n, result[k])
+
+//@ func (*creator).setLeafPrefix
+//@   property C13 C17
+//@   opt kinds=post
+//@   requires c != nil && c.option != nil && c.option.LeafPrefix != nil
+//@   ensures !*c.option.LeafPrefix ==> len(c.leafPrefixes) == old(len(c.leafPrefixes)) && len(c.leafPrefixIndexes) == old(len(c.leafPrefixIndexes)) && len(c.leafPrefixLens) == old(len(c.leafPrefixLens))
+//@   ensures len(c.prefixes) == old(len(c.prefixes)) && len(c.prefix4BitLens) == old(len(c.prefix4BitLens)) && len(c.leaves) == old(len(c.leaves)) && len(c.leafIndexes) == old(len(c.leafIndexes))
+
+//@ func (*creator).setPrefix
+//@   property C08 C13 C17
+//@   opt kinds=post,pre(encStep)
+//@   requires c != nil && c.option != nil && c.option.InnerPrefix != nil && prefixBitFrom <= prefixBitTo && 0 <= prefixBitFrom && prefixBitTo <= 1000000000
+//@   requires !*c.option.InnerPrefix ==> (prefixBitTo - prefixBitFrom)/4 <= 65535
+//@   modifies c.prefixIndexes, c.prefixByteLens, c.prefixes, c.prefix4BitLens, elems(c.prefixIndexes), elems(c.prefixByteLens), elems(c.prefixes), elems(c.prefix4BitLens)
+//@   ensures prefixBitTo == prefixBitFrom ==> len(c.prefixIndexes) == old(len(c.prefixIndexes)) && len(c.prefix4BitLens) == old(len(c.prefix4BitLens)) && len(c.prefixes) == old(len(c.prefixes))
+//@   ensures prefixBitTo != prefixBitFrom ==> len(c.prefixIndexes) == old(len(c.prefixIndexes)) + 1
+//@   ensures prefixBitTo != prefixBitFrom && !*c.option.InnerPrefix ==> len(c.prefix4BitLens) == old(len(c.prefix4BitLens)) + 2 && len(c.prefixes) == old(len(c.prefixes)) && len(c.prefixByteLens) == old(len(c.prefixByteLens))
+//@   ensures prefixBitTo != prefixBitFrom && *c.option.InnerPrefix ==> len(c.prefix4BitLens) == old(len(c.prefix4BitLens))
+
+//@ func (*creator).addLeafIndex
+//@   property C13 C17
+//@   opt kinds=post
+//@   requires c != nil
+//@   ensures c.nodeCnt == old(c.nodeCnt) + 1
+//@   ensures !c.withLeaves ==> len(c.leafIndexes) == old(len(c.leafIndexes)) && len(c.leaves) == old(len(c.leaves)) && c.leafCnt == old(c.leafCnt)
+//@   ensures c.withLeaves ==> len(c.leafIndexes) == old(len(c.leafIndexes)) + 1 && c.leafCnt == old(c.leafCnt) + 1
